@@ -63,6 +63,7 @@ def run(ctx, replay=None):
         return replay_cluster(ctx, replay)
     binary = build(ctx)
     pre = PREFIX[ctx.prop]
+    pre_ = pre
     nn = 3
     tcfg = "SPECIFICATION TraceSpec\nINVARIANT Done\n" + consts(nn, 9, 100000)
     mc = None
@@ -94,6 +95,55 @@ def run(ctx, replay=None):
             viol.append({"clauses": again, "tags": [], "schedule": scheds[tid]})
         else:
             ctx.log("report %s on trace %d not reproduced; ignored" % (mine, tid))
+    # divergence-directed amplification: where the real node left the model, the exhaustive result does not transfer, so
+    # that neighbourhood is searched directly: the diverging prefix followed by every single next input of a reduced alphabet
+    # (and by the diverging input once more).  Reports found there are confirmed like any other.
+    amp = {"prefixes": 0, "schedules": 0}
+    if not viol and rep.diverged and not replay:
+        lines = vlib.read_ndjson(tp)
+        starts = {}
+        for i, ln in enumerate(lines):
+            if ln["act"]["a"] == "reset":
+                starts[ln["act"]["id"]] = i
+        alpha = [{"a": "msg", "ty": ty, "x": x, "lt": lt, "prune": pr, "w": 0}
+                 for ty in (1, 2) for x in range(nn) for lt in (0, 1, 2, 3, 4) for pr in ((0, 1) if ty == 2 else (0,))]
+        alpha += [{"a": "mljoin", "x": x} for x in range(1, nn)] + [{"a": "mlleave", "x": x} for x in range(1, nn)]
+        ext, seenp = [], set()
+        for (tid, l) in rep.diverged:
+            if len(seenp) >= 4:
+                break
+            pre = [ln["act"] for ln in lines[starts[tid] + 1:l]]
+            key = json.dumps(pre)
+            if key in seenp:
+                continue
+            seenp.add(key)
+            again = dict(pre[-1])
+            mlup = set()
+            for a in pre:
+                if a["a"] == "mljoin":
+                    mlup.add(a["x"])
+                elif a["a"] == "mlleave":
+                    mlup.discard(a["x"])
+            for a in alpha + [again]:
+                if a["a"] == "mljoin" and a["x"] in mlup or a["a"] == "mlleave" and a["x"] not in mlup:
+                    continue
+                ext.append(pre + [a])
+                ext.append(pre + [a, again])
+        if ext:
+            amp = {"prefixes": len(seenp), "schedules": len(ext)}
+            ta = execute(ctx, binary, nn, ext, "amp")
+            repa = vlib.validate(ctx, "Trace_SerfReplica", tcfg, ta, timeout=3000)
+            seen2 = {}
+            for (tid, line, clauses, tags) in repa.monitors:
+                mine = sorted(c for c in clauses if c.startswith(pre_))
+                if not mine or seen2.get(",".join(mine), 0) >= 2:
+                    continue
+                seen2[",".join(mine)] = seen2.get(",".join(mine), 0) + 1
+                t2 = execute(ctx, binary, nn, [ext[tid]], "ampre%d" % tid)
+                rep2 = vlib.validate(ctx, "Trace_SerfReplica", tcfg, t2)
+                again2 = sorted(set(c for m in rep2.monitors for c in m[2] if c in mine))
+                if again2:
+                    viol.append({"clauses": again2, "tags": [], "schedule": ext[tid]})
     ccov = {}
     if ctx.prop == "C02" and not replay:
         # the agreement clause: multi-node histories (spec/SerfCluster.tla) on real nodes
@@ -117,7 +167,7 @@ def run(ctx, replay=None):
         "model_constants": "exhaustive: 2 names, times 0..2, all input sequences of length <=3 (thorough 4); simulation: 3 names, times 0..4",
         "traces_validated_against_impl": rep.traces, "trace_lines": rep.lines, "divergences": len(rep.diverged),
         "evaluations": nsteps, "distinct_nontrivial": len(set(json.dumps(s) for s in scheds)),
-        "inputs_by_kind": kinds,
+        "inputs_by_kind": kinds, "amplification": amp,
         "rule": "TLC -simulate behaviours of SerfReplica (memberlist notifications, join/leave/prune intents about any name incl. the "
                 "local node, push/pull merges, force-leave, broadcastJoin, Leave, reap with per-member expiry) applied to a real quiet "
                 "Serf node; every step's projected state validated by TLC and judged by the monitors; distinct = distinct input sequences",
